@@ -250,7 +250,19 @@ def rule_keys(ck, fi):
         v = table["SERVER_PORT"]
         n += 1
         isstr = isinstance(v, ast.Call) and q.dotted(v.func) == "str" and len(v.args) == 1
-        ck.ob("C47.host-port", fi, v, isstr, "SERVER_PORT is a str (PEP 3333)")
+        if not isstr:
+            # f"{port}" / "%d" % port / "{}".format(port): a string made of exactly the port
+            pcs_ = concat_pieces(v)
+            if pcs_ is None and isinstance(v, ast.Call) and q.call_attr(v) == "format" and isinstance(v.func.value, ast.Constant) and v.func.value.value == "{}" and len(v.args) == 1:
+                pcs_ = [v.args[0]]
+            if pcs_ is not None and len(pcs_) == 1 and not isinstance(pcs_[0], ast.Constant):
+                v = ast.Call(func=ast.Name(id="str", ctx=ast.Load()), args=[pcs_[0]], keywords=[])
+                ast.copy_location(v, table["SERVER_PORT"])
+                ast.fix_missing_locations(v)
+                isstr = True
+            elif pcs_ is not None or isinstance(v, (ast.JoinedStr, ast.BinOp, ast.Call)):
+                raise AnalysisError("C47.host-port: SERVER_PORT is rendered by %s, not recognised" % q.unparse(v))
+        ck.ob("C47.host-port", fi, table["SERVER_PORT"], isstr, "SERVER_PORT is a str (PEP 3333)")
         if isstr and portv:
             ck.ob("C47.host-port", fi, v, q.dotted(v.args[0]) == portv, "SERVER_PORT is the port part returned by the splitter")
             # never None when the dict is built
@@ -470,12 +482,28 @@ def rule_response(ck):
         # presence tests that guard this insertion: `<probe> in <S>` known false, where the probe is the header name as a
         # literal (any spelling) or the name variable (raw or lower-cased)
         guards = []   # (probe is lower-cased?, text of S)
+        scanned = False
+        scans = []    # the same fact may appear in several spellings (explaining locals expanded): any spelling decides
         for t, pol in F:
             if pol or t.startswith("@"):
                 continue
             try:
                 e = ast.parse(t, mode="eval").body
             except SyntaxError:
+                continue
+            if isinstance(e, ast.Call) and q.dotted(e.func) == "any" and len(e.args) == 1 and isinstance(e.args[0], ast.GeneratorExp) and len(e.args[0].generators) == 1 and isinstance(N, ast.Constant):
+                # not any(k.lower() == "server" for k, _ in headers): the same test written as a scan of the list
+                g_ = e.args[0]
+                cmp_ = g_.elt
+                if isinstance(cmp_, ast.Compare) and len(cmp_.ops) == 1 and isinstance(cmp_.ops[0], ast.Eq):
+                    sides = [cmp_.left, cmp_.comparators[0]]
+                    lit = [x for x in sides if isinstance(x, ast.Constant) and isinstance(x.value, str) and x.value.lower() == hname.lower()]
+                    var = [x for x in sides if not isinstance(x, ast.Constant)]
+                    if lit and var:
+                        lowered_var = isinstance(var[0], ast.Call) and q.call_attr(var[0]) in ("lower", "casefold")
+                        scan_ok = lowered_var and lit[0].value == lit[0].value.lower()
+                        scans.append((scan_ok, q.dotted(g_.generators[0].iter) == recv))
+                        scanned = True
                 continue
             if not (isinstance(e, ast.Compare) and len(e.ops) == 1 and isinstance(e.ops[0], ast.In)):
                 continue
@@ -488,6 +516,11 @@ def rule_response(ck):
                     guards.append((True, coll))
                 elif q.dotted(probe) == N.id:
                     guards.append((False, coll))
+        if scanned and not guards:
+            n += 2
+            ck.ob("C47.response", sfi, c, any(a_ for a_, _b in scans), "the absence test for %s compares lower-cased application header names with the lower-case name" % hname)
+            ck.ob("C47.response", sfi, c, any(b_ for _a, b_ in scans), "the names scanned are those of the list the default is appended to (%s)" % recv)
+            continue
         if not guards and any((hname.strip("<>").lower() in t.lower()) for t, _pol in F):
             raise AnalysisError("C47.response: the presence test guarding the default %s is not of a recognised form" % hname)
         n += 1
